@@ -1,5 +1,6 @@
 import BlockModes.Spec.Block
 import BlockModes.Lemmas.Xor
+import BlockModes.Lemmas.Chunks
 /-
   Lemmas/SpecBlock.lean — facts about the textbook recurrences: append laws, lengths, inverses.
 -/
@@ -132,5 +133,40 @@ theorem ofb_ofb (C : Cipher) (hC : C.Valid) (l : List Bytes) (o : Bytes)
     have hk : (C.enc o).length = C.bs := hC.enc_len _ ho
     obtain ⟨h1, h2⟩ := ih _ hk hps
     simp only [ofb, xorB_cancel_right p (C.enc o) (by omega), h1, h2, and_self]
+
+theorem cfbEnc_allLen (C : Cipher) (hC : C.Valid) (l : List Bytes) (ch : Bytes)
+    (hch : ch.length = C.bs) (hl : AllLen C.bs l) :
+    AllLen C.bs (cfbEnc C ch l).1 ∧ (cfbEnc C ch l).2.length = C.bs := by
+  induction l generalizing ch with
+  | nil => exact ⟨by intro b hb; simp [cfbEnc] at hb, hch⟩
+  | cons p ps ih =>
+    obtain ⟨hp, hps⟩ := hl.cons
+    have hk : (C.enc ch).length = C.bs := hC.enc_len _ hch
+    have hc : (xorB p (C.enc ch)).length = C.bs := by simp [hp, hk]
+    obtain ⟨h1, h2⟩ := ih _ hc hps
+    refine ⟨?_, h2⟩
+    intro b hb
+    simp only [cfbEnc, List.mem_cons] at hb
+    rcases hb with rfl | hb
+    · exact hc
+    · exact h1 b hb
+
+/-- one-shot CFB on any byte length inverts (trailing partial block included). -/
+theorem cfbDecBytes_cfbEncBytes (C : Cipher) (hC : C.Valid) (iv m : Bytes) (hiv : iv.length = C.bs) :
+    cfbDecBytes C iv (cfbEncBytes C iv m) = m := by
+  have hbs := hC.bs_pos
+  have hAll : AllLen C.bs (chunks C.bs m) := chunks_allLen C.bs hbs m
+  obtain ⟨hcl, hcs⟩ := cfbEnc_allLen C hC _ iv hiv hAll
+  have hk : (C.enc (cfbEnc C iv (chunks C.bs m)).2).length = C.bs := hC.enc_len _ hcs
+  have htl := chunksTail_lt C.bs hbs m
+  have hxt : (xorB (chunksTail C.bs m) (C.enc (cfbEnc C iv (chunks C.bs m)).2)).length < C.bs := by
+    simp; omega
+  unfold cfbDecBytes cfbEncBytes
+  simp only
+  obtain ⟨e1, e2⟩ := chunks_of_blocks C.bs hbs _ _ hcl hxt
+  rw [e1, e2]
+  obtain ⟨d1, d2⟩ := cfbDec_cfbEnc C hC _ iv hiv hAll
+  rw [d1, d2, xorB_cancel_right _ _ (by omega)]
+  exact chunks_flatten_tail C.bs hbs m
 
 end Spec
